@@ -52,12 +52,14 @@ enum ChildImpl {
 pub struct Child {
     imp: ChildImpl,
     log: Rc<ChildLog>,
+    /// calls back for every event it is handed, also while unregistered
+    eager: bool,
 }
 
 // only to satisfy the `T: Default` bound the derive on TransientSource adds; never called
 impl Default for Child {
     fn default() -> Child {
-        Child { imp: ChildImpl::Timer(Timer::from_duration(std::time::Duration::from_secs(1))), log: Rc::new(ChildLog::default()) }
+        Child { imp: ChildImpl::Timer(Timer::from_duration(std::time::Duration::from_secs(1))), log: Rc::new(ChildLog::default()), eager: false }
     }
 }
 
@@ -98,6 +100,10 @@ impl EventSource for Child {
                 })
                 .map_err(|e| Box::new(e) as Box<dyn std::error::Error + Sync + Send>)?,
         };
+        if !fired && self.eager {
+            fired = true;
+            callback(no, &mut ());
+        }
         if fired {
             self.log.events.set(self.log.events.get() + 1);
             if let Some(r) = self.log.next_ret.take() {
@@ -217,6 +223,7 @@ pub struct ChildM {
     pub fd: Option<SharedFd>,
     pub peer: Option<Rc<OwnedFd>>,
     pub is_timer: bool,
+    pub eager: bool,
 }
 
 pub struct TransK {
@@ -249,7 +256,7 @@ fn make_child(sim: &Sim, spec: &ChildSpec, no: u32, parent: Id, fail: u8) -> (Ch
                 Deadline::In(d) => Timer::from_duration(std::time::Duration::from_nanos(*d)),
                 Deadline::At(t) => Timer::from_deadline(sim.instant_at(*t)),
             };
-            (Child { imp: ChildImpl::Timer(t), log: log.clone() }, ChildM { log, fd: None, peer: None, is_timer: true })
+            (Child { imp: ChildImpl::Timer(t), log: log.clone(), eager: false }, ChildM { log, fd: None, peer: None, is_timer: true, eager: false })
         }
         _ => {
             let same = if matches!(spec, ChildSpec::SameFd) {
@@ -275,7 +282,10 @@ fn make_child(sim: &Sim, spec: &ChildSpec, no: u32, parent: Id, fail: u8) -> (Ch
                 }
             };
             let g = Generic::new(fd.clone(), Interest::READ, Mode::Level);
-            (Child { imp: ChildImpl::Pipe(g), log: log.clone() }, ChildM { log, fd: Some(fd), peer: Some(w), is_timer: false })
+            {
+                let eager = matches!(spec, ChildSpec::Eager);
+                (Child { imp: ChildImpl::Pipe(g), log: log.clone(), eager }, ChildM { log, fd: Some(fd), peer: Some(w), is_timer: false, eager })
+            }
         }
     }
 }
@@ -313,6 +323,36 @@ pub fn insert_transient(sim: &Sim, id: Id, child: &ChildSpec, from_default: bool
 fn on_child_event(id: Id, child_no: u32, tag: &mut Tag) {
     let sim = cur();
     sim.trace(|| format!("   cb transient {} child {}", id, child_no));
+    {
+        // an eager child answers an event collected before its parent was disabled earlier in
+        // this dispatch: that it calls back at all is its own business (C07 names the sources'
+        // forgetting their token as the mechanism), but what it answers still goes through the
+        // wrapper, which only ever returns Continue or Reregister
+        let mut st = sim.st.borrow_mut();
+        if let Some(s) = st.srcs.get_mut(&id) {
+            let stale = s.inserted && !s.enabled && s.excused && s.in_processing > 0 && !s.indeterminate;
+            if let K::Trans(t) = &mut s.k {
+                let eager = t.children.iter().any(|c| c.log.no == child_no && c.eager);
+                if stale && eager {
+                    s.indeterminate = true;
+                    t.gave_up = true;
+                    let log = t.children.iter().find(|c| c.log.no == child_no).map(|c| c.log.clone());
+                    drop(st);
+                    sim.probe("eager_child_answered_while_parent_disabled");
+                    let ret = crate::cb::run_script(&sim, id);
+                    if let Some(l) = log {
+                        l.next_ret.set(match ret {
+                            Ret::Reregister => Some(PostAction::Reregister),
+                            Ret::Disable | Ret::DisableBoth => Some(PostAction::Disable),
+                            Ret::Remove => Some(PostAction::Remove),
+                            _ => None,
+                        });
+                    }
+                    return;
+                }
+            }
+        }
+    }
     if !crate::cb::common(&sim, id, tag) {
         return;
     }
@@ -417,6 +457,14 @@ pub fn check(sim: &Sim, id: Id, when: &'static str) {
             }
         }
         let evaluated = s.inserted && st.loop_alive && !t.gave_up && t.children.iter().any(|c| c.log.fail_fired.get());
+        if viol.is_none() {
+            // whatever state the wrapper is in, it filters what its child answers
+            for r in t.rets.borrow().iter() {
+                if !matches!(r, PostAction::Continue | PostAction::Reregister) {
+                    viol = Some(("transient.bad_post_action", vec![], format!("TransientSource of parent {} returned {:?}", id, r)));
+                }
+            }
+        }
         drop(st);
         if evaluated {
             // once, right after the operation that failed: what later operations do to a
